@@ -6,7 +6,7 @@ CONSTANTS
   ServerName = "localhost"
   ServerPort = 70
   HiCode = "FF"
-  Fixes = {"wap", "gemini"}
+  Fixes = {"wap", "gemini", "mapfile"}
 CONSTRAINT Record
 POSTCONDITION Post
 CHECK_DEADLOCK FALSE
